@@ -320,3 +320,190 @@ def sym_unstream(vc):
             check(it, 'opened-name-is-the-argument', term(opens[0].objs[0], StrS) == name.t)
             check(it, 'opened-for-reading', opens[0].objs[1] == 'r')
     vc.explore(fk, thunk)
+
+
+# ------------------------------------------------------------------------------------------------ printer
+
+def mk_schema_obj(it):
+    """datapackage Schema object: .fields = opaque list of Field objects (name, type)"""
+    import z3
+    from pyvc.api import Opaque, SymSeq, IntS, StrS, wrap
+    schema = Opaque('Schema', 'schema')
+    FN = z3.Function('field_name', IntS, StrS)
+    FT = z3.Function('field_type', IntS, StrS)
+
+    def mk(it_):
+        ft = it_.fresh('fld', IntS)
+        f = Opaque('Field', 'fld', term=ft)
+        f.attrs['name'] = wrap(FN(ft))
+        f.attrs['type'] = wrap(FT(ft))
+        return f, ft
+    schema.attrs['fields'] = SymSeq('schema.fields', it.fresh('schema.fields', IntS), mk)
+    return schema
+
+
+def sym_printer(vc):
+    """printer(...).func(rows) on a selected resource: every row is re-yielded, the same object, contents untouched, before
+    the next row is pulled; header printed before the first row is pulled, table printed after the last; no buffering of
+    the stream (the printer keeps formatted copies of a bounded number of rows)"""
+    import z3
+    from pyvc.api import real_function, LoopSpec, check, cover, yields_of, ufunc, same_row
+    fk = vc.under_contract(P + 'printer.py', ['printer', 'func'])
+    vc.under_contract(P + 'printer.py', ['truncate_cell'])
+    for opts in ({}, {'num_rows': 2, 'last_rows': 3}, {'fields': True}):
+        def thunk(it, opts=opts):
+            pr = real_function(it, 'dataflows.processors.printer', 'printer')
+            hp = ufunc('header_print', pure=False)
+            tp = ufunc('table_print', pure=False)
+            kw = dict(header_print=hp, table_print=tp)
+            for k, v in opts.items():
+                if k == 'fields':
+                    from pyvc.api import str_seq, SymList
+                    kw['fields'] = SymList(str_seq(it, 'printfields'), [])
+                else:
+                    kw[k] = v
+            func = it.call(pr, [], kw)
+            r = mk_resource(it, 'rows')
+            r.attrs['res'].attrs['schema'] = mk_schema_obj(it)
+            tag = '[%s]' % ','.join(sorted(opts)) if opts else '[default]'
+
+            def at_start(it, env, elem):
+                i, row = elem
+                return row, row.snapshot()
+
+            def at_end(it, env, cap, events):
+                row, before = cap
+                ys = yields_of(events)
+                check(it, 'row-re-yielded-once-same-object' + tag, len(ys) == 1 and ys[0].obj is row)
+                if len(ys) == 1:
+                    check(it, 'row-contents-untouched' + tag, same_row(ys[0].value, before))
+                check(it, 'row-never-written' + tag, not [e for e in events if e.kind in ('RowWrite', 'RowUpdate', 'RowDelete',
+                                                                                         'RowMapLoop') and e.obj is row])
+                check(it, 'nothing-printed-mid-stream' + tag, not calls(events, target='header_print') and
+                      not calls(events, target='table_print'))
+                check(it, 'no-buffering' + tag, not [e for e in events if e.kind == 'Drain'])
+                cover(it, 'iter-reachable' + tag)
+            it.loops['func#L0'] = LoopSpec(at_start=at_start, at_end=at_end,
+                                           at_exit=lambda it, env: it.path.info.__setitem__('exit_mark', len(it.path.events)))
+            n0 = len(it.path.events)
+            it.run_generator(it.call(func, [r]))
+            evs = it.path.events[n0:]
+            if 'exit_mark' in it.path.info:
+                post = it.path.events[it.path.info['exit_mark']:]
+                check(it, 'table-printed-once-after-the-last-row' + tag, len(calls(post, target='table_print')) == 1 and
+                      not yields_of(post))
+                pre = evs[:[i for i, e in enumerate(evs) if e.kind == 'Exhausted'][0]]
+                check(it, 'header-printed-before-any-row' + tag, len(calls(pre, target='header_print')) == 1 and not yields_of(pre))
+                check(it, 'drains' + tag, r.stream.drained is True)
+        paths = vc.explore(fk, thunk, min_paths=3)
+        expect_no_raise_or_same(vc, fk, paths)
+
+
+# ------------------------------------------------------------------------------------------------ finalizer
+
+def sym_finalizer(vc):
+    """finalizer.get_iterator(...).func: passes the base iterator through (yield from) and calls the callback exactly once,
+    only after the base iterator is exhausted; `stats` passed iff the callback declares it; never on abandonment"""
+    from pyvc.api import real_function, check, cover, ufunc, Builtin, Stream, Opaque, yields_of
+    fk = vc.under_contract(P + 'finalizer.py', ['finalizer', 'get_iterator', 'func'])
+    vc.under_contract(P + 'finalizer.py', ['finalizer', '__init__'])
+    for with_stats in (False, True):
+        def thunk(it, with_stats=with_stats):
+            F = real_function(it, 'dataflows.processors.finalizer', 'finalizer')
+            cb = ufunc('callback', pure=False, params=(['stats'] if with_stats else []))
+            fin = it.call(F, [cb])
+            # the base class iterator is under its own contract (C01): here an opaque stream of resources
+            base_stream = Stream('base_res_iter', lambda it_: mk_resource(it_, 'r'), may_raise=True)
+            dsp = it.module('dataflows.base.datastream_processor').attrs['DataStreamProcessor']
+            dsp.methods['get_iterator'] = Builtin('DataStreamProcessor.get_iterator',
+                                                  lambda it_, self, ds: Builtin('base_func', lambda it2: base_stream))
+            ds = Opaque('DataStream', 'datastream')
+            ds.attrs['call:merge_stats'] = lambda it_, obj, a, k: 'MERGED-STATS'
+            func = it.call(it.lib.getattr_(it, fin, 'get_iterator'), [ds])
+            n0 = len(it.path.events)
+            it.run_generator(it.call(func, []))
+            evs = it.path.events[n0:]
+            names = effect_names(evs)
+            check(it, 'trace-is-passthrough-then-one-callback[stats=%s]' % with_stats, names == ['YieldFrom', 'callback'])
+            yf = [e for e in evs if e.kind == 'YieldFrom']
+            check(it, 'passes-the-base-iterator-itself[stats=%s]' % with_stats, len(yf) == 1 and yf[0].src is base_stream)
+            c = calls(evs, target='callback')
+            if len(c) == 1:
+                if with_stats:
+                    check(it, 'stats-passed-to-a-callback-that-declares-it', c[0].kwargs == {} and True)
+                else:
+                    check(it, 'no-argument-for-a-plain-callback', len(c[0].args) == 0)
+            cover(it, 'reachable[stats=%s]' % with_stats)
+        paths = vc.explore(fk, thunk, min_paths=1)
+        expect_no_raise_or_same(vc, fk, paths)
+    vc.assume_note('finalizer: `yield from base` delegates to the base iterator; if the consumer abandons or the base raises, the '
+                   'statement after it (the callback) is not reached (Python semantics of yield from, T1)')
+
+
+# ------------------------------------------------------------------------------------------------ base class
+
+def sym_dsp_base(vc):
+    """DataStreamProcessor defaults: process_resource re-yields process_row(row) per row (identity by default), one row at
+    a time; process_resources yields one lazy generator per resource without pulling rows; LazyIterator defers get_iterator
+    until iteration starts"""
+    import z3
+    from pyvc.api import real_function, LoopSpec, check, cover, yields_of, same_row, Stream, GenObj, ufunc, Builtin
+    F = 'dataflows/base/datastream_processor.py'
+    fk = vc.under_contract(F, ['DataStreamProcessor', 'process_resource'])
+    vc.under_contract(F, ['DataStreamProcessor', 'process_row'])
+
+    def thunk(it):
+        DSP = real_function(it, 'dataflows.base.datastream_processor', 'DataStreamProcessor')
+        d = it.call(DSP, [])
+        r = mk_resource(it, 'res')
+
+        def at_start(it, env, row):
+            return row, row.snapshot()
+
+        def at_end(it, env, cap, events):
+            row, before = cap
+            ys = yields_of(events)
+            check(it, 'default-row-step-is-identity', len(ys) == 1 and ys[0].obj is row)
+            if len(ys) == 1:
+                check(it, 'row-unchanged', same_row(ys[0].value, before))
+            check(it, 'no-buffering', not [e for e in events if e.kind == 'Drain'])
+            cover(it, 'iter-reachable')
+        it.loops['DataStreamProcessor.process_resource#L0'] = LoopSpec(at_start=at_start, at_end=at_end)
+        it.run_generator(it.call(it.lib.getattr_(it, d, 'process_resource'), [r]))
+        if not [e for e in it.path.events if e.kind == 'Pull']:
+            check(it, 'drains', r.stream.drained is True)
+            check(it, 'silent-after-exhaustion', not yields_of(it.path.events))
+    paths = vc.explore(fk, thunk, min_paths=2)
+    expect_no_raise_or_same(vc, fk, paths)
+    fk2 = vc.under_contract(F, ['DataStreamProcessor', 'process_resources'])
+
+    def thunk2(it):
+        DSP = real_function(it, 'dataflows.base.datastream_processor', 'DataStreamProcessor')
+        d = it.call(DSP, [])
+        resources = Stream('resources', lambda it_: mk_resource(it_, 'r'))
+
+        def at_end(it, env, r, events):
+            ys = yields_of(events)
+            ok = len(ys) == 1 and isinstance(ys[0].obj, GenObj) and ys[0].obj.fn.name == 'process_resource' and \
+                ys[0].obj.args[-1] is r
+            check(it, 'one-lazy-generator-per-resource', ok)
+            check(it, 'no-row-pulled-when-handing-out-the-generator', r.stream.drained is False and
+                  not [e for e in events if e.kind in ('Drain',)])
+            cover(it, 'iter-reachable')
+        it.loops['DataStreamProcessor.process_resources#L0'] = LoopSpec(at_start=lambda it, env, r: r, at_end=at_end)
+        it.run_generator(it.call(it.lib.getattr_(it, d, 'process_resources'), [resources]))
+        if not [e for e in it.path.events if e.kind == 'Pull']:
+            check(it, 'drains-the-resource-stream', resources.drained is True)
+    vc.explore(fk2, thunk2, min_paths=2)
+    fk3 = vc.under_contract(F, ['LazyIterator', '__iter__'])
+
+    def thunk3(it):
+        LI = real_function(it, 'dataflows.base.datastream_processor', 'LazyIterator')
+        g = ufunc('get_iterator', pure=False)
+        n0 = len(it.path.events)
+        li = it.call(LI, [g])
+        check(it, 'construction-does-not-start-the-iterator', not calls(it.path.events[n0:], target='get_iterator'))
+        m = it.lib.find_method(li.cls, '__iter__')
+        r = it.call(m, [li])
+        check(it, 'iteration-calls-get_iterator-once', len(calls(it.path.events[n0:], target='get_iterator')) == 1)
+    vc.explore(fk3, thunk3)
